@@ -38,7 +38,17 @@ func c01Gen(c *vfCtx, emit func(c01Case)) {
 		emit(c01Case{Family: "A-long", Tests: []vfTestExec{{Name: "TestA", Calls: []vfCall{snap(b), snap("a")}}}})
 	}
 	// A2: one test, two calls, all ordered pairs of bodies
-	pairBodies := bodies
+	// thorough: all one-line bodies over the full alphabet plus all two-line bodies over the core one
+	pairBodies := []string{}
+	{
+		seen := map[string]bool{}
+		for _, b := range append(vfBodies(sigma, 1, 2), vfBodies(vfSigmaCore, 2, 1)...) {
+			if !seen[b] {
+				seen[b] = true
+				pairBodies = append(pairBodies, b)
+			}
+		}
+	}
 	if !c.thorough() {
 		// quick: all one-line bodies over the core alphabet plus all two-line bodies over the small one
 		seen := map[string]bool{}
@@ -61,7 +71,10 @@ func c01Gen(c *vfCtx, emit func(c01Case)) {
 		tinyBodies = vfBodies(small, 1, 1)
 	}
 	// B: pre-existing file with 1..2 entries of another test, bodies over Σ, then TestA with 1..2 calls
-	for _, p1 := range smallBodies {
+	for pi, p1 := range smallBodies {
+		if c.thorough() && pi >= 2*len(tinyBodies) {
+			break
+		}
 		for bi, b1 := range smallBodies {
 			if c.thorough() && bi >= len(tinyBodies) {
 				break // thorough: B2 would otherwise be |small|^2 x |tiny|
